@@ -36,6 +36,16 @@ def decorate(rng, v):
         v["aci"] = rng.choice([0, 1])           # consumed by EnumString only; every other derive must ignore it
     if rng.random() < 0.15:
         v["xattrs"] = ["#[allow(dead_code)]"]    # a non-strum attribute next to the strum ones
+    if v["dis"] and rng.random() < 0.4:
+        split_disabled(rng, v)
+    return v
+
+
+def split_disabled(rng, v):
+    """`disabled` in a LATER #[strum(..)] attribute, separated from an earlier one by a non-strum attribute"""
+    lit = [104, 48 + rng.randrange(10)]
+    v["ser"], v["msg"], v["docs"], v["xattrs"], v["aci"] = [lit], [], [], [], 2
+    v["raw"] = ['#[strum(serialize = "%s")]' % "".join(chr(c) for c in lit), "#[allow(dead_code)]", "#[strum(disabled)]"]
     return v
 
 
